@@ -592,10 +592,65 @@ def run_rename_then_first_access(chk, spec):
 			chk.skip("rename-refused")
 			return
 		names[j] = new
+		inter = spec.get("interlude")
+		if inter == "rshift-dict":
+			call(lambda: t >> {"zz top": [0] * len(t)})              # builds ANOTHER table; this one is only read
+		elif inter == "rshift-dict-colliding":
+			call(lambda: t >> {names[(j + 1) % len(names)]: [0] * len(t)})
+		elif inter == "rejected-rename_columns":
+			class H(str):
+				def lower(self):
+					raise RuntimeError("no lower")
+			other = (j + 1) % len(names)
+			rj = call(t.rename_columns, [names[other]], [H("q")])
+			if rj.ok:
+				names[other] = "q"
+		elif inter == "rejected-rename_column":
+			rj = call(t.rename_column, "no such column", "w")
 		early_probe(chk, t, names, rng, {"force_probe": spec["probe"], "force_column": spec["target"], **spec})
 
 
 RUNNERS["rename_then_first_access"] = run_rename_then_first_access
+
+
+def run_str_subclass_labels(chk, spec):
+	"""a label that is an instance of a str subclass - also one whose __str__ / __repr__ / __format__ say something else than the text it holds (a str-mixin Enum member) - is the
+	string it holds: the table advertises exactly what a table with the plain strings advertises, and every accessor resolves to its column"""
+	import enum, warnings
+	class Unit(str, enum.Enum):
+		QTY = "qty"
+		PRICE = "unit price"
+		def __str__(self):
+			return "Unit." + self.name
+	class Loud(str):
+		def __str__(self):
+			return "LOUD " + str.__str__(self).upper() + "!"
+		__repr__ = __str__
+	class Plain(str):
+		pass
+	labels = {"enum": [Unit.QTY, Unit.PRICE, "n"], "enum-next-to-plain-twin": [Unit.QTY, "qty", "n"], "loud": [Loud("qty"), Loud("unit price"), "n"], "plain-subclass": [Plain("qty"), Plain("Unit Price"), "n"], "loud-next-to-twin": ["qty", Loud("qty"), "n"]}[spec["labels"]]
+	with warnings.catch_warnings():
+		warnings.simplefilter("ignore")
+		def build(ls):
+			return Table([Vector([100 * i + r for r in range(2)], name=l) for i, l in enumerate(ls)])
+		live, ref = build(labels), build([str.__str__(l) for l in labels])
+		if spec["via"] == "rename":
+			live = build(["p", "q", "n"])
+			call(live.rename_columns, ["p", "q"], list(labels[:2]))
+		base = set(dir(Table(())))
+		a, b = [n for n in dir(live) if n not in base], [n for n in dir(ref) if n not in base]
+	chk.judged("static", ("str-subclass-labels", spec["labels"], spec["via"]))
+	if a != b:
+		chk.fail("sanitisation follows the documented rules and never alters the stored names", f"accessor/str-subclass-label/advertised-differently/{spec['labels']}", f"{spec!r}: advertised {a!r}; with plain strings {b!r}")
+		return
+	for acc in a:
+		g, h = call(getattr, live, acc), call(getattr, ref, acc)
+		if not g.ok or (h.ok and list(g.value._underlying) != list(h.value._underlying)):
+			chk.fail("each accessor resolves by attribute access to the column at its own position", f"accessor/str-subclass-label/unresolvable/{spec['labels']}", f"{spec!r}: {acc!r} -> {short(g, 80)}")
+			return
+
+
+RUNNERS["str_subclass_labels"] = run_str_subclass_labels
 
 
 def run(chk):
@@ -635,6 +690,12 @@ def run(chk):
 			for names, renamed, target in ((["a", "b", "c"], 1, 1), (["a", "b", "c"], 1, 0), (["a", "b", "c"], 0, 2), (["x y", "b"], 0, 1), (["a", "b"], 1, 1)):
 				for touch_first in (False, True):
 					chk.case("rename_then_first_access", {"how": how, "probe": probe, "names": names, "renamed": renamed, "target": target, "touch_first": touch_first}, "rename-then-first-access")
+					if how == "handle" and names == ["a", "b", "c"]:
+						for inter in ("rshift-dict", "rshift-dict-colliding", "rejected-rename_columns", "rejected-rename_column"):
+							chk.case("rename_then_first_access", {"how": how, "probe": probe, "names": names, "renamed": renamed, "target": target, "touch_first": touch_first, "interlude": inter}, "rename-then-first-access-interlude")
+	for labels in ("enum", "enum-next-to-plain-twin", "loud", "plain-subclass", "loud-next-to-twin"):
+		for via in ("ctor", "rename"):
+			chk.case("str_subclass_labels", {"labels": labels, "via": via}, "str-subclass-labels")
 	for first in ("nothing", "repr-named-vector", "repr-vector-named-like-a-method", "repr-unnamed-vector", "dir-vector", "vector-arithmetic", "repr-unnamed-table", "empty-table"):
 		chk.case("fresh_process", {"first": first}, "fresh-process")
 	for _ in range(420 if chk.quick() else 3000):
